@@ -24,14 +24,18 @@ pub fn msg_spec(id_pool: u8, big: bool) -> impl Strategy<Value = MsgSpec> {
             60 => 1u32..=64,
             30 => 65u32..=4096,
             9 => 4097u32..=120_000,
-            1 => 120_001u32..=1_200_000,
+            1 => prop_oneof![4 => 120_001u32..=1_200_000, 1 => 2_100_000u32..=2_600_000],
         ]
         .boxed()
     } else {
+        // (0.3 % around 1 MB: a few cases per thousand then hold a stored batch above 2 MiB, the
+        // largest single write the server's file layer accepts - see KF-C02-4)
         prop_oneof![
-            75 => 1u32..=64,
-            22 => 65u32..=1500,
-            3 => 1501u32..=20_000,
+            750 => 1u32..=64,
+            220 => 65u32..=1500,
+            27 => 1501u32..=20_000,
+            2 => 700_000u32..=1_150_000,
+            1 => 2_100_000u32..=2_400_000,
         ]
         .boxed()
     };
